@@ -28,6 +28,7 @@ EXPLANATION = (
     "(setattr/exec/__dict__) that the who-may-write rules of all properties rely on. NOT decided: equality of "
     "trajectories after a dirty history (behavioural) and leaks through third-party global state."
 )
+TECHNIQUE = "static: who-may-write inventory of class-level/singleton state, output-switch guard analysis, mutable-default analysis, dynamic-feature census"
 ASSUMPTIONS = ["pydantic deep-copies annotated field defaults and private attributes per instance (pydantic 2.7)",
                "reset() rebuilds the whole PrimaiteGame (C01 R1.4), so per-episode state lives in objects created afresh"]
 
